@@ -227,7 +227,9 @@ def _try_remove_group(group_el, push_opacity=True):
         children = list(group_el)
         if group_el.getparent() is not None:
             _replace_el(group_el, list(group_el))
-        if push_opacity:
+        # (an opacity of 1 is nothing to push down: it would only leave opacity="1" on
+        # children that are passed through as they are, e.g. <text> with allow_text)
+        if push_opacity and opacity != 1.0:
             for child in children:
                 if _is_redundant(child.tag):
                     continue
